@@ -50,30 +50,8 @@ Proof.
         { apply Nat.ltb_lt in He. subst got. apply skipn_all2. rewrite firstn_length in He. lia. }
 Qed.
 
-(* ---------- the scanner as if the whole remaining text were in the buffer ---------- *)
-
-Fixpoint a_scan (sep : N) (l : list N) (pos start dq : nat) (cr : option nat) (acc : list meta) : list meta * nat :=
-  match l with
-  | [] => (mk_value start pos dq :: acc, pos)
-  | c :: t =>
-    if c =? DQ then a_scan sep t (S pos) start (S dq) cr acc
-    else if (c =? sep) && Nat.even dq then a_scan sep t (S pos) (S pos) 0 None (mk_value start pos dq :: acc)
-    else if c =? CR then a_scan sep t (S pos) start dq (Some pos) acc
-    else if (c =? LF) && Nat.even dq then (mk_value start (lf_end cr pos) dq :: acc, S pos)
-    else a_scan sep t (S pos) start dq cr acc
-  end.
-
-Lemma a_scan_pos sep : forall l pos start dq cr acc,
-  (pos <= snd (a_scan sep l pos start dq cr acc) <= pos + length l)%nat.
-Proof.
-  induction l as [|c t IH]; intros pos start dq cr acc; cbn [a_scan length].
-  - cbn. lia.
-  - destruct (c =? DQ); [specialize (IH (S pos) start (S dq) cr acc); lia|].
-    destruct ((c =? sep) && Nat.even dq); [specialize (IH (S pos) (S pos) 0%nat None (mk_value start pos dq :: acc)); lia|].
-    destruct (c =? CR); [specialize (IH (S pos) start dq (Some pos) acc); lia|].
-    destruct ((c =? LF) && Nat.even dq); [cbn; lia|].
-    specialize (IH (S pos) start dq cr acc); lia.
-Qed.
+(* the scanner as if the whole remaining text were in the buffer is a_scan (CsvReaderProofs.v), which the memory
+   reader's parse_line equals *)
 
 Lemma s_scan_refines K sep : (0 < K)%nat -> forall fuel buf todo e pos start dq cr acc,
   esr_inv e -> (pos + length todo = length buf)%nat ->
@@ -119,102 +97,6 @@ Proof.
       cbn [length] in Hlen. replace (length buf) with (S pos) by lia.
       split; [reflexivity|]. split; [reflexivity|]. split; [exact Inv|]. lia. }
     destruct (IH buf t e (S pos) start dq cr acc Inv) as (ext & e' & E & R); [lia|lia|]. exists ext, e'. rewrite E. split; [reflexivity | exact R].
-Qed.
-
-(* ---------- the abstract scanner on the pieces of a rendering (as for parse_line, minus the F24 branch) ---------- *)
-
-Lemma as_plain sep f : needs_quote sep f = false -> forall rest pos start dq cr acc,
-  a_scan sep (f ++ rest) pos start dq cr acc = a_scan sep rest (pos + length f) start dq cr acc.
-Proof.
-  induction f as [|c f IH]; intros H rest pos start dq cr acc.
-  - cbn. rewrite Nat.add_0_r. reflexivity.
-  - apply needs_quote_cons in H. destruct H as [Hc Hf]. apply special_false in Hc. destruct Hc as (H1 & H2 & H3 & H4).
-    cbn [app a_scan length]. neqb. cbn [andb]. rewrite IH by exact Hf. f_equal. lia.
-Qed.
-
-Lemma as_esc sep f : sane_sep sep -> forall rest pos start dq cr acc, Nat.even dq = false -> cr_lt cr pos ->
-  exists dq' cr',
-    a_scan sep (esc f ++ rest) pos start dq cr acc = a_scan sep rest (pos + length (esc f)) start dq' cr' acc /\
-    Nat.even dq' = false /\ cr_lt cr' (pos + length (esc f)).
-Proof.
-  intros (S1 & S2 & S3). induction f as [|c f IH]; intros rest pos start dq cr acc Hev Hcr.
-  - exists dq, cr. cbn. rewrite Nat.add_0_r. auto.
-  - rewrite esc_cons. destruct (N.eqb_spec c DQ) as [->|Hdq].
-    + cbn [app a_scan length]. rewrite !N.eqb_refl.
-      destruct (IH rest (S (S pos)) start (S (S dq)) cr acc) as (dq' & cr' & E & Hev' & Hcr').
-      { exact Hev. } { destruct cr; cbn in *; lia. }
-      exists dq', cr'. rewrite E. split; [f_equal; lia|]. split; [exact Hev'|].
-      replace (pos + S (S (length (esc f))))%nat with (S (S pos) + length (esc f))%nat by lia. exact Hcr'.
-    + cbn [app a_scan length]. neqb. rewrite Hev, !andb_false_r.
-      destruct (N.eqb_spec c CR) as [->|Hcr0].
-      * destruct (IH rest (S pos) start dq (Some pos) acc) as (dq' & cr' & E & Hev' & Hcr'); [exact Hev | cbn; lia |].
-        exists dq', cr'. rewrite E. split; [f_equal; lia|]. split; [exact Hev'|].
-        replace (pos + S (length (esc f)))%nat with (S pos + length (esc f))%nat by lia. exact Hcr'.
-      * destruct (IH rest (S pos) start dq cr acc) as (dq' & cr' & E & Hev' & Hcr'); [exact Hev | destruct cr; cbn in *; lia |].
-        exists dq', cr'. rewrite E. split; [f_equal; lia|]. split; [exact Hev'|].
-        replace (pos + S (length (esc f)))%nat with (S pos + length (esc f))%nat by lia. exact Hcr'.
-Qed.
-
-Lemma as_field sep q f : sane_sep sep -> (q = false -> needs_quote sep f = false) -> forall rest pos acc,
-  exists dq cr,
-    a_scan sep (rfield q f ++ rest) pos pos 0 None acc =
-    a_scan sep rest (pos + length (rfield q f)) pos dq cr acc /\
-    after_field q (pos + length (rfield q f)) dq cr.
-Proof.
-  intros S Hq rest pos acc. destruct q; cbn [rfield].
-  - unfold quoted. cbn [app a_scan length]. rewrite N.eqb_refl. rewrite <- app_assoc.
-    destruct (as_esc sep f S ([DQ] ++ rest) (Datatypes.S pos) pos 1%nat None acc) as (dq' & cr' & E & Hev & Hcr); [reflexivity | exact I |].
-    rewrite E. cbn [app a_scan]. rewrite N.eqb_refl.
-    exists (Datatypes.S dq'), cr'. split; [f_equal; rewrite app_length; cbn; lia|].
-    unfold after_field. split; [rewrite Nat.even_succ, <- Nat.negb_even, Hev; reflexivity|]. split; [reflexivity|].
-    destruct cr' as [c|]; [right|left; reflexivity]. exists c. split; [reflexivity|].
-    cbn in Hcr. rewrite app_length. cbn. lia.
-  - exists 0%nat, None. split; [apply as_plain; apply Hq; reflexivity|]. unfold after_field. auto.
-Qed.
-
-Lemma as_after_sep sep start p dq cr t acc : sane_sep sep -> Nat.even dq = true ->
-  a_scan sep (sep :: t) p start dq cr acc = a_scan sep t (S p) (S p) 0 None (mk_value start p dq :: acc).
-Proof. intros (S1 & S2 & S3) Hev. cbn [a_scan]. neqb. rewrite N.eqb_refl, Hev. reflexivity. Qed.
-
-Lemma as_after_lf sep start p dq cr t acc : sane_sep sep -> Nat.even dq = true ->
-  (cr = None \/ exists c, cr = Some c /\ (S c < p)%nat) ->
-  a_scan sep (LF :: t) p start dq cr acc = (mk_value start p dq :: acc, S p).
-Proof.
-  intros (S1 & S2 & S3) Hev Hcr. cbn [a_scan]. assert (LF <> sep) by congruence.
-  change (LF =? DQ) with false. change (LF =? CR) with false. neqb. rewrite N.eqb_refl, Hev. cbn [andb].
-  rewrite lf_end_ok by exact Hcr. reflexivity.
-Qed.
-
-Lemma as_after_crlf sep start p dq cr t acc : sane_sep sep -> Nat.even dq = true ->
-  a_scan sep (CR :: LF :: t) p start dq cr acc = (mk_value start p dq :: acc, S (S p)).
-Proof.
-  intros (S1 & S2 & S3) Hev. cbn [a_scan]. assert (LF <> sep) by congruence. assert (CR <> sep) by congruence.
-  change (CR =? DQ) with false. change (LF =? DQ) with false. change (LF =? CR) with false. change (CR =? CR) with true.
-  neqb. rewrite N.eqb_refl, Hev. cbn [andb].
-  unfold lf_end. cbn [nat_is0 negb andb]. replace (S p - 1)%nat with p by lia. rewrite Nat.eqb_refl. reflexivity.
-Qed.
-
-(* a rendered record, whatever follows it: the stream scanner has no F24 *)
-Lemma as_record sep : sane_sep sep -> forall r qs a rest n pos acc,
-  render_record sep qs r = Some a -> line_rest rest n ->
-  a_scan sep (a ++ rest) pos pos 0 None acc = (rev (rec_metas pos qs r) ++ acc, (pos + length a + n)%nat).
-Proof.
-  intros S. induction r as [|f r IH]; intros qs a rest n pos acc H LR.
-  - rewrite render_record_nil in H. discriminate.
-  - apply render_record_inv in H.
-    destruct H as (q & qs' & -> & Hq & [(-> & -> & ->)|(Hne & b & Hb & ->)]).
-    + destruct (as_field sep q f S Hq rest pos acc) as (dq & cr & E & AF). destruct AF as (Hev & Hq' & Hcr). rewrite E.
-      cbn [rec_metas rev app].
-      destruct LR.
-      * cbn [a_scan]. rewrite mk_value_fmeta by exact Hq'. f_equal. lia.
-      * rewrite as_after_lf by assumption. rewrite mk_value_fmeta by exact Hq'. f_equal. lia.
-      * rewrite as_after_crlf by assumption. rewrite mk_value_fmeta by exact Hq'. f_equal. lia.
-    + rewrite <- app_assoc. cbn [app].
-      destruct (as_field sep q f S Hq (sep :: b ++ rest) pos acc) as (dq & cr & E & AF). destruct AF as (Hev & Hq' & Hcr). rewrite E.
-      rewrite as_after_sep by assumption. rewrite mk_value_fmeta by exact Hq'.
-      rewrite (IH qs' b rest n _ _ Hb LR).
-      destruct r as [|f2 r']; [congruence|]. destruct qs' as [|q2 qs'']; [rewrite render_record_nilq in Hb; discriminate|].
-      cbn [rec_metas rev]. rewrite <- !app_assoc. cbn [app]. f_equal. rewrite !app_length. cbn [length]. lia.
 Qed.
 
 (* ---------- ParseNextLine on a rendered record ---------- *)
@@ -334,238 +216,206 @@ Proof.
   cbn [skipn]. unfold junk. rewrite <- app_assoc. reflexivity.
 Qed.
 
-(* ---------- the constructor: header names are read by index, one after the other ---------- *)
+(* ---------- a parsed row in the buffer: cells ---------- *)
 
+(* the reader state apart from buffer, metas and column cursor *)
 Definition s_same (s s' : sreader) : Prop :=
-  s_esr s' = s_esr s /\ s_headers s' = s_headers s /\ s_metas s' = s_metas s /\ s_pos s' = s_pos s /\
+  s_esr s' = s_esr s /\ s_headers s' = s_headers s /\ s_pos s' = s_pos s /\
   s_line s' = s_line s /\ s_rowidx s' = s_rowidx s /\ s_prev s' = s_prev s.
 
 Lemma s_same_refl s : s_same s s.
 Proof. unfold s_same. repeat split; reflexivity. Qed.
 
 Lemma s_same_trans s1 s2 s3 : s_same s1 s2 -> s_same s2 s3 -> s_same s1 s3.
-Proof. unfold s_same. intros (A1&A2&A3&A4&A5&A6&A7) (B1&B2&B3&B4&B5&B6&B7). repeat split; congruence. Qed.
+Proof. unfold s_same. intros (A1&A2&A3&A4&A5&A6) (B1&B2&B3&B4&B5&B6). repeat split; congruence. Qed.
 
-Lemma s_read_next_field s pre q f post mpre mpost :
-  s_buf s = pre ++ rfield q f ++ post ->
-  s_metas s = mpre ++ mkMeta (length pre) (length (rfield q f)) q :: mpost -> s_validx s = length mpre ->
-  exists c s', s_read_next s = Ok (f, s') /\ s_buf s' = pre ++ c ++ post /\ length c = length (rfield q f) /\
-               s_same s s' /\ s_validx s' = S (length mpre).
-Proof.
-  intros Hb Hm Hv. unfold s_read_next. rewrite Hm, Hv, nth_error_mid. cbn [m_esc m_off m_size].
-  destruct q; cbn [rfield] in *.
-  - rewrite Hb, s_unescape_quoted. exists (f ++ junk f). eexists. split; [reflexivity|].
-    cbn. split; [reflexivity|]. split; [apply junk_length|]. split; [unfold s_same; cbn; repeat split; reflexivity | reflexivity].
-  - rewrite Hb, slice_mid. exists f. eexists. split; [reflexivity|].
-    cbn. split; [reflexivity|]. split; [reflexivity|]. split; [unfold s_same; cbn; repeat split; reflexivity | reflexivity].
-Qed.
+(* the window of a field and its meta: either still as rendered, or (escaped field already read once) the decoded
+   value followed by what unescaping left behind, described by a meta without quotes *)
+Definition cell_ok (q : bool) (f : field) (off : nat) (m : meta) (c : list N) : Prop :=
+  (m = mkMeta off (length (rfield q f)) q /\ c = rfield q f) \/
+  (q = true /\ m = mkMeta off (length f) false /\ c = f ++ junk f).
 
-Lemma s_read_headers_spec sep : forall r qs a pre post s acc mpre,
-  render_record sep qs r = Some a -> s_buf s = pre ++ a ++ post ->
-  s_metas s = mpre ++ rec_metas (length pre) qs r -> s_validx s = length mpre ->
-  exists a' s', s_read_headers (length r) s acc = Ok (acc ++ r, s') /\
-    s_buf s' = pre ++ a' ++ post /\ length a' = length a /\ s_same s s'.
+Lemma cell_ok_length q f off m c : cell_ok q f off m c -> length c = length (rfield q f).
+Proof. intros [[_ ->]|(-> & _ & ->)]; [reflexivity | apply junk_length]. Qed.
+
+Inductive row_cells (sep : N) : nat -> list bool -> record -> list meta -> list N -> Prop :=
+| RC_last p q f m c : cell_ok q f p m c -> row_cells sep p [q] [f] [m] c
+| RC_cons p q f m c qs r ms txt : cell_ok q f p m c -> r <> [] ->
+    row_cells sep (S (p + length c)) qs r ms txt ->
+    row_cells sep p (q :: qs) (f :: r) (m :: ms) (c ++ sep :: txt).
+
+Lemma row_cells_initial sep : forall r qs a p, render_record sep qs r = Some a -> row_cells sep p qs r (rec_metas p qs r) a.
 Proof.
-  induction r as [|f r IH]; intros qs a pre post s acc mpre H Hb Hm Hv.
+  induction r as [|f r IH]; intros qs a p H.
   - rewrite render_record_nil in H. discriminate.
   - apply render_record_inv in H.
-    destruct H as (q & qs' & -> & Hq & [(-> & -> & ->)|(Hne & b & Hb' & ->)]).
-    + cbn [rec_metas] in Hm. cbn [length s_read_headers].
-      destruct (s_read_next_field s pre q f post mpre [] Hb Hm Hv) as (c & s1 & E1 & B1 & L1 & S1 & V1).
-      rewrite E1. cbn [s_read_headers]. exists c, s1. auto.
-    + cbn [rec_metas] in Hm. cbn [length s_read_headers].
-      rewrite <- app_assoc in Hb. cbn [app] in Hb.
-      destruct (s_read_next_field s pre q f (sep :: b ++ post) mpre _ Hb Hm Hv) as (c & s1 & E1 & B1 & L1 & S1 & V1).
-      rewrite E1. cbv beta iota.
-      destruct S1 as (A1&A2&A3&A4&A5&A6&A7).
-      destruct (IH qs' b (pre ++ c ++ [sep]) post s1 (acc ++ [f]) (mpre ++ [mkMeta (length pre) (length (rfield q f)) q]) Hb')
-        as (a' & s2 & E2 & B2 & L2 & S2).
-      { rewrite B1, <- !app_assoc. reflexivity. }
-      { rewrite A3, Hm, <- app_assoc. cbn [app]. f_equal. f_equal. f_equal. rewrite !app_length. cbn [length]. lia. }
-      { rewrite V1, app_length. cbn. lia. }
-      exists (c ++ sep :: a'), s2. rewrite <- app_assoc in E2. cbn [app] in E2.
-      split; [exact E2|]. split; [rewrite B2, <- !app_assoc; reflexivity|].
-      split; [rewrite !app_length; cbn [length]; lia|].
-      eapply s_same_trans; [|exact S2]. unfold s_same. repeat split; assumption.
+    destruct H as (q & qs' & -> & Hq & [(-> & -> & ->)|(Hne & b & Hb & ->)]).
+    + cbn [rec_metas]. constructor. left. auto.
+    + cbn [rec_metas]. constructor; [left; auto | exact Hne | apply IH; exact Hb].
+Qed.
+
+Lemma row_cells_length sep : forall p qs r ms txt, row_cells sep p qs r ms txt ->
+  forall a, render_record sep qs r = Some a -> length txt = length a /\ length ms = length r.
+Proof.
+  induction 1 as [p q f m c Hc | p q f m c qs r ms txt Hc Hne Hrc IH]; intros a Ha.
+  - cbn in Ha. apply render_field_inv in Ha. destruct Ha as [-> _]. split; [apply (cell_ok_length _ _ _ _ _ Hc) | reflexivity].
+  - apply render_record_inv in Ha.
+    destruct Ha as (q' & qs' & Eq & Hq & [(-> & _ & _)|(_ & b & Hb & ->)]); [congruence|]. inversion Eq. subst q' qs'.
+    destruct (IH b Hb) as [L1 L2]. rewrite !app_length. cbn [length]. rewrite (cell_ok_length _ _ _ _ _ Hc), L1, L2. auto.
+Qed.
+
+(* the value step shared by ReadValue() and ReadValue(key): unescape in place and remember, or take the slice *)
+Definition read_meta (buf : list N) (ms : list meta) (i : nat) (m : meta) : outcome (list N * list N * list meta) :=
+  if m_esc m then
+    match s_unescape buf (m_off m) (m_off m + m_size m) with
+    | Ok (v, buf') => Ok (v, buf', set_nth i (mkMeta (m_off m) (length v) false) ms)
+    | Err e => Err e | Terminate => Terminate | UB => UB | OutOfFuel => OutOfFuel
+    end
+  else Ok (slice buf (m_off m) (m_size m), buf, ms).
+
+Lemma read_cell_head q f pre m c post ms i : cell_ok q f (length pre) m c ->
+  exists c', read_meta (pre ++ c ++ post) ms i m =
+               Ok (f, pre ++ c' ++ post, if m_esc m then set_nth i (mkMeta (length pre) (length f) false) ms else ms) /\
+             cell_ok q f (length pre) (if m_esc m then mkMeta (length pre) (length f) false else m) c'.
+Proof.
+  intros [[-> ->]|(-> & -> & ->)]; unfold read_meta; cbn [m_esc m_off m_size].
+  - destruct q; cbn [rfield].
+    + rewrite s_unescape_quoted. exists (f ++ junk f). split; [reflexivity|]. right. auto.
+    + rewrite slice_mid. exists f. split; [reflexivity|]. left. auto.
+  - rewrite <- app_assoc. rewrite slice_mid. exists (f ++ junk f). rewrite <- app_assoc. split; [reflexivity|]. right. auto.
+Qed.
+
+Lemma read_cell sep : forall p qs r ms txt, row_cells sep p qs r ms txt ->
+  forall j f pre post, nth_error r j = Some f -> length pre = p ->
+  exists m txt' ms', nth_error ms j = Some m /\
+    read_meta (pre ++ txt ++ post) ms j m = Ok (f, pre ++ txt' ++ post, ms') /\
+    row_cells sep p qs r ms' txt'.
+Proof.
+  induction 1 as [p q f0 m c Hc | p q f0 m c qs r ms txt Hc Hne Hrc IH]; intros j f pre post Hj Hp.
+  - destruct j as [|j]; [|destruct j; discriminate]. cbn in Hj. inversion Hj. subst f0 p.
+    destruct (read_cell_head q f pre m c post [m] 0 Hc) as (c' & E & Hc').
+    exists m, c'. eexists. split; [reflexivity|]. split; [exact E|].
+    destruct (m_esc m); cbn [set_nth]; constructor; exact Hc'.
+  - destruct j as [|j].
+    + cbn in Hj. inversion Hj. subst f0 p.
+      rewrite <- app_assoc. cbn [app].
+      destruct (read_cell_head q f pre m c (sep :: txt ++ post) (m :: ms) 0 Hc) as (c' & E & Hc').
+      exists m, (c' ++ sep :: txt). eexists. split; [reflexivity|].
+      split; [rewrite <- app_assoc; exact E|].
+      pose proof (cell_ok_length _ _ _ _ _ Hc) as L. pose proof (cell_ok_length _ _ _ _ _ Hc') as L'.
+      destruct (m_esc m); cbn [set_nth]; constructor; try assumption; rewrite L', <- L; exact Hrc.
+    + cbn [nth_error] in Hj. subst p.
+      destruct (IH j f (pre ++ c ++ [sep]) post Hj) as (mj & txt' & ms' & Em & E & Hrc').
+      { rewrite !app_length. cbn [length]. lia. }
+      exists mj, (c ++ sep :: txt'). cbn [nth_error].
+      replace ((pre ++ c ++ [sep]) ++ txt ++ post) with (pre ++ (c ++ sep :: txt) ++ post) in E
+        by (rewrite <- !app_assoc; reflexivity).
+      replace ((pre ++ c ++ [sep]) ++ txt' ++ post) with (pre ++ (c ++ sep :: txt') ++ post) in E
+        by (rewrite <- !app_assoc; reflexivity).
+      unfold read_meta in *. destruct (m_esc mj).
+      * destruct (s_unescape (pre ++ (c ++ sep :: txt) ++ post) (m_off mj) (m_off mj + m_size mj)) as [[v b']| | | |]; try discriminate.
+        inversion E. subst. eexists. split; [exact Em|]. split; [reflexivity|].
+        cbn [set_nth]. constructor; assumption.
+      * inversion E. subst. eexists. split; [exact Em|]. split; [reflexivity|]. constructor; assumption.
+Qed.
+
+(* ReadValue() and ReadValue(key) through read_meta *)
+Lemma s_read_next_meta s m : nth_error (s_metas s) (s_validx s) = Some m ->
+  s_read_next s =
+    match read_meta (s_buf s) (s_metas s) (s_validx s) m with
+    | Ok (v, buf', ms') => Ok (v, mkS buf' (s_esr s) (s_headers s) ms' (s_pos s) (s_line s) (s_rowidx s) (S (s_validx s)) (s_prev s))
+    | Err e => Err e | Terminate => Terminate | UB => UB | OutOfFuel => OutOfFuel
+    end.
+Proof.
+  intros Hm. unfold s_read_next, read_meta. rewrite Hm. destruct (m_esc m); [|reflexivity].
+  destruct (s_unescape (s_buf s) (m_off m) (m_off m + m_size m)) as [[v b']| | | |]; reflexivity.
+Qed.
+
+Lemma s_read_key_meta s k idx m : select_column (s_headers s) (s_validx s) k = (idx, true) ->
+  nth_error (s_metas s) idx = Some m ->
+  s_read_key true s k =
+    match read_meta (s_buf s) (s_metas s) idx m with
+    | Ok (v, buf', ms') => Ok (Some v, mkS buf' (s_esr s) (s_headers s) ms' (s_pos s) (s_line s) (s_rowidx s) idx (s_prev s))
+    | Err e => Err e | Terminate => Terminate | UB => UB | OutOfFuel => OutOfFuel
+    end.
+Proof.
+  intros Hs Hm. unfold s_read_key, read_meta. cbn [negb]. rewrite Hs. cbn [negb]. rewrite Hm. destruct (m_esc m); [|reflexivity].
+  destruct (s_unescape (s_buf s) (m_off m) (m_off m + m_size m)) as [[v b']| | | |]; reflexivity.
+Qed.
+
+(* ---------- the constructor: header names are read by index, one after the other ---------- *)
+
+Lemma s_read_headers_spec sep qs (r : record) post : forall n s acc txt,
+  row_cells sep 0 qs r (s_metas s) txt -> s_buf s = txt ++ post -> (n + s_validx s = length r)%nat ->
+  exists s' txt', s_read_headers n s acc = Ok (acc ++ skipn (s_validx s) r, s') /\
+    row_cells sep 0 qs r (s_metas s') txt' /\ s_buf s' = txt' ++ post /\ s_same s s'.
+Proof.
+  induction n as [|n IH]; intros s acc txt RC Hb Hn.
+  - exists s, txt. cbn [s_read_headers]. rewrite skipn_all2 by (cbn in Hn; lia). rewrite app_nil_r.
+    split; [reflexivity|]. split; [exact RC|]. split; [exact Hb | apply s_same_refl].
+  - cbn [s_read_headers].
+    destruct (nth_error r (s_validx s)) as [f|] eqn:Ef; [|apply nth_error_None in Ef; lia].
+    destruct (read_cell sep 0 qs r (s_metas s) txt RC (s_validx s) f [] post Ef eq_refl) as (m & txt' & ms' & Em & E & RC').
+    cbn [app] in E. rewrite <- Hb in E.
+    rewrite (s_read_next_meta s m Em), E.
+    match goal with |- context [s_read_headers n ?ss _] => set (s1 := ss) end.
+    destruct (IH s1 (acc ++ [f]) txt') as (s2 & txt2 & E2 & RC2 & B2 & S2).
+    { subst s1. cbn [s_metas]. exact RC'. } { subst s1. reflexivity. } { subst s1. cbn [s_validx]. lia. }
+    exists s2, txt2. subst s1. cbn [s_validx] in E2. rewrite (skipn_nth r _ _ Ef), <- app_assoc in *.
+    split; [exact E2|]. split; [exact RC2|]. split; [exact B2|].
+    eapply s_same_trans; [|exact S2]. unfold s_same. cbn. repeat split; reflexivity.
 Qed.
 
 (* ---------- a data row read by name ---------- *)
 
-(* The requests a row can serve with the current code: a column other than the first must be bare in this row
-   (F23: the end of an escaped value is computed without its offset), and an escaped first column can be read
-   once (F25: unescaping in place destroys the opening quote).  clean = the first column has not been unescaped. *)
-Fixpoint keys_ok (hdr : record) (qs : list bool) (clean : bool) (keys : list field) : bool :=
-  match keys with
-  | [] => true
-  | k :: ks =>
-    match find_header hdr k 0 with
-    | None => keys_ok hdr qs clean ks
-    | Some O => if hd false qs then clean && keys_ok hdr qs false ks else keys_ok hdr qs clean ks
-    | Some (S j) => negb (nth (S j) qs false) && keys_ok hdr qs clean ks
-    end
-  end.
-
-Lemma find_header_nth hs key : forall i, find_header hs key 0 = Some i -> nth_error hs i = Some key.
+Lemma s_read_key_gen sep qs (rec : record) post s txt k :
+  length rec = length (s_headers s) ->
+  row_cells sep 0 qs rec (s_metas s) txt -> s_buf s = txt ++ post ->
+  exists s' txt',
+    s_read_key true s k =
+      Ok ((if snd (select_column (s_headers s) (s_validx s) k)
+           then nth_error rec (fst (select_column (s_headers s) (s_validx s) k)) else None), s') /\
+    row_cells sep 0 qs rec (s_metas s') txt' /\ s_buf s' = txt' ++ post /\ s_same s s' /\
+    s_validx s' = fst (select_column (s_headers s) (s_validx s) k).
 Proof.
-  induction hs as [|h hs IH]; intros i H; cbn in *; [discriminate|].
-  destruct (list_eqb h key) eqn:E.
-  - inversion H. apply list_eqb_eq in E. subst. reflexivity.
-  - rewrite find_header_shift in H. destruct (find_header hs key 0) as [j|]; [|discriminate].
-    cbn in H. inversion H. cbn. apply IH. reflexivity.
+  intros Hl RC Hb.
+  destruct (select_column (s_headers s) (s_validx s) k) as [idx found] eqn:Es. cbn [fst snd].
+  destruct found.
+  - pose proof (select_column_lt _ _ _ _ Es) as Hlt.
+    destruct (nth_error rec idx) as [f|] eqn:Er; [|apply nth_error_None in Er; lia].
+    destruct (read_cell sep 0 qs rec (s_metas s) txt RC idx f [] post Er eq_refl) as (m & txt' & ms' & Em & E & RC').
+    cbn [app] in E. rewrite <- Hb in E.
+    rewrite (s_read_key_meta s k idx m Es Em), E.
+    eexists. exists txt'. split; [reflexivity|]. cbn [s_metas s_buf s_validx]. split; [exact RC'|]. split; [reflexivity|].
+    split; [unfold s_same; cbn; repeat split; reflexivity | reflexivity].
+  - unfold s_read_key. cbn [negb]. rewrite Es. cbn [negb].
+    eexists. exists txt. split; [reflexivity|]. cbn [s_with s_metas s_buf s_validx]. split; [exact RC|]. split; [exact Hb|].
+    split; [unfold s_same; cbn; repeat split; reflexivity | reflexivity].
 Qed.
 
-Lemma rec_metas_esc sep : forall r qs a p j m, render_record sep qs r = Some a ->
-  nth_error (rec_metas p qs r) j = Some m -> m_esc m = nth j qs false.
+Lemma s_read_keys_gen sep qs (rec : record) post :
+  forall keys s acc txt, length rec = length (s_headers s) ->
+  row_cells sep 0 qs rec (s_metas s) txt -> s_buf s = txt ++ post ->
+  exists s' txt', s_read_keys s keys acc = Ok (acc ++ read_spec (s_headers s) rec keys (s_validx s), s') /\
+    row_cells sep 0 qs rec (s_metas s') txt' /\ s_buf s' = txt' ++ post /\ s_same s s'.
 Proof.
-  induction r as [|f r IH]; intros qs a p j m H Hn.
-  - rewrite render_record_nil in H. discriminate.
-  - apply render_record_inv in H.
-    destruct H as (q & qs' & -> & Hq & [(-> & -> & ->)|(Hne & b & Hb & ->)]).
-    + cbn [rec_metas] in Hn. destruct j as [|[|j]]; cbn in Hn; inversion Hn. reflexivity.
-    + cbn [rec_metas] in Hn. destruct j as [|j]; cbn in Hn.
-      * inversion Hn. reflexivity.
-      * cbn [nth]. apply (IH qs' b _ j m Hb Hn).
-Qed.
-
-Lemma tail_values sep r qs b c0 post : render_record sep qs r = Some b ->
-  Forall2 (fun m f => src_value (c0 ++ sep :: b ++ post) m = Ok f) (rec_metas (S (length c0)) qs r) r.
-Proof.
-  intros H. pose proof (rec_values sep r qs b (c0 ++ [sep]) post H) as F.
-  rewrite app_length in F. cbn [length] in F. rewrite Nat.add_1_r in F.
-  rewrite <- app_assoc in F. cbn [app] in F. exact F.
-Qed.
-
-(* the row as it lies in the buffer: first field (possibly already unescaped), the rest of the record, what follows *)
-Inductive row_layout (sep : N) : list bool -> record -> list N -> list N -> list N -> list N -> bool -> Prop :=
-| RL q0 f0 qs' r' buf c0 tla post clean :
-    buf = c0 ++ tla ++ post ->
-    length c0 = length (rfield q0 f0) ->
-    ((clean = true \/ q0 = false) -> c0 = rfield q0 f0) ->
-    ((r' = [] /\ qs' = [] /\ tla = []) \/ (exists b, render_record sep qs' r' = Some b /\ tla = sep :: b)) ->
-    row_layout sep (q0 :: qs') (f0 :: r') buf c0 tla post clean.
-
-Lemma s_read_key_row sep hdr qs rec s c0 tla post clean k :
-  NoDup hdr -> length rec = length hdr -> s_headers s = hdr ->
-  s_metas s = rec_metas 0 qs rec ->
-  row_layout sep qs rec (s_buf s) c0 tla post clean ->
-  keys_ok hdr qs clean [k] = true ->
-  exists s' c0' clean',
-    s_read_key true s k = Ok (cell hdr rec k, s') /\ s_same s s' /\
-    row_layout sep qs rec (s_buf s') c0' tla post clean' /\
-    (forall ks, keys_ok hdr qs clean (k :: ks) = true -> keys_ok hdr qs clean' ks = true).
-Proof.
-  intros ND Hl Hh Hm RLH Hok.
-  inversion RLH as [q0 f0 qs' r' buf0 c00 tla0 post0 clean0 Ebuf Elen Ec0 Etla]. subst qs rec c00 tla0 post0 clean0 buf0.
-  unfold s_read_key. cbn [negb]. rewrite Hh, select_column_nodup by exact ND.
-  rewrite cell_find by exact Hl.
-  cbn [keys_ok] in Hok |- *.
-  destruct (find_header hdr k 0) as [i|] eqn:Ef.
-  2:{ cbn [negb]. exists (s_with s (s_buf s) (S (s_validx s))), c0, clean.
-      split; [reflexivity|]. split; [unfold s_same; cbn; repeat split; reflexivity|].
-      split; [cbn; exact RLH|]. intros ks H. exact H. }
-  cbn [negb]. pose proof (find_header_lt _ _ _ Ef) as Hlt.
-  rewrite Hm.
-  destruct i as [|j].
-  - (* the first column *)
-    cbn [rec_metas nth_error m_esc m_off m_size hd] in *.
-    destruct q0.
-    + (* escaped: must still be intact *)
-      rewrite andb_true_r in Hok. subst clean.
-      rewrite (Ec0 (or_introl eq_refl)) in Ebuf. cbn [rfield] in *.
-      rewrite Ebuf. change (quoted f0 ++ tla ++ post) with ([] ++ quoted f0 ++ tla ++ post).
-      change (length (quoted f0)) with (length (@nil N) + length (quoted f0))%nat at 1.
-      change 0%nat with (length (@nil N)) at 1.
-      rewrite s_unescape_quoted. cbn [app].
-      exists (s_with s ((f0 ++ junk f0) ++ tla ++ post) 0), (f0 ++ junk f0), false.
-      split; [reflexivity|]. split; [unfold s_same; cbn; repeat split; reflexivity|].
-      split.
-      * cbn. constructor; [reflexivity | apply junk_length | intros [H|H]; discriminate | exact Etla].
-      * intros ks H. cbn [andb] in H. exact H.
-    + (* bare *)
-      cbn [rfield] in *. pose proof (Ec0 (or_intror eq_refl)) as Hc. subst c0.
-      rewrite Ebuf. change (f0 ++ tla ++ post) with ([] ++ f0 ++ tla ++ post). change 0%nat with (length (@nil N)).
-      rewrite slice_mid. cbn [app].
-      exists (s_with s (f0 ++ tla ++ post) 0), f0, clean.
-      split; [reflexivity|]. split; [unfold s_same; cbn; repeat split; reflexivity|].
-      split.
-      * cbn. constructor; [reflexivity | reflexivity | reflexivity | exact Etla].
-      * intros ks H. exact H.
-  - (* another column: must be bare in this row *)
-    rewrite andb_true_r in Hok. apply negb_true_iff in Hok.
-    cbn [rec_metas nth_error Nat.add]. cbn [length] in Hl, Hlt.
-    destruct Etla as [(-> & -> & ->)|(b & Hb & ->)]; [cbn in Hlt, Hl; lia|].
-    destruct (nth_error r' j) as [val|] eqn:Er; [|apply nth_error_None in Er; lia].
-    pose proof (tail_values sep r' qs' b c0 post Hb) as F. rewrite Elen in F.
-    destruct (Forall2_nth _ _ _ F j val Er) as (m & Em & Hm'). rewrite Em.
-    pose proof (rec_metas_esc sep r' qs' b _ j m Hb Em) as Hesc. cbn [nth] in Hok. rewrite Hok in Hesc.
-    rewrite Hesc. unfold src_value in Hm'. rewrite Hesc in Hm'. inversion Hm' as [Hv].
-    exists (s_with s (s_buf s) (S j)), c0, clean.
-    split; [rewrite Ebuf at 1; cbn [app]; rewrite Hv; reflexivity|]. split; [unfold s_same; cbn; repeat split; reflexivity|].
-    split; [cbn; exact RLH|].
-    intros ks H. apply andb_true_iff in H. destruct H as [_ H]. exact H.
-Qed.
-
-Lemma keys_ok_head hdr qs clean k ks : keys_ok hdr qs clean (k :: ks) = true -> keys_ok hdr qs clean [k] = true.
-Proof.
-  cbn [keys_ok]. destruct (find_header hdr k 0) as [[|j]|]; [|rewrite andb_true_r; intros H; apply andb_true_iff in H; tauto|reflexivity].
-  destruct (hd false qs); [|reflexivity]. rewrite andb_true_r. intros H. apply andb_true_iff in H. tauto.
-Qed.
-
-Lemma s_read_keys_row sep hdr qs rec tla post : NoDup hdr -> length rec = length hdr ->
-  forall keys s c0 clean acc, s_headers s = hdr -> s_metas s = rec_metas 0 qs rec ->
-  row_layout sep qs rec (s_buf s) c0 tla post clean -> keys_ok hdr qs clean keys = true ->
-  exists s' c0' clean',
-    s_read_keys s keys acc = Ok (acc ++ map (cell hdr rec) keys, s') /\ s_same s s' /\
-    row_layout sep qs rec (s_buf s') c0' tla post clean'.
-Proof.
-  intros ND Hl. induction keys as [|k ks IH]; intros s c0 clean acc Hh Hm RLH Hok.
-  - exists s, c0, clean. cbn. rewrite app_nil_r. split; [reflexivity|]. split; [apply s_same_refl | exact RLH].
-  - cbn [s_read_keys map].
-    destruct (s_read_key_row sep hdr qs rec s c0 tla post clean k ND Hl Hh Hm RLH (keys_ok_head _ _ _ _ _ Hok))
-      as (s1 & c1 & clean1 & E1 & S1 & RL1 & Hnext).
-    rewrite E1. cbv beta iota. destruct S1 as (A1&A2&A3&A4&A5&A6&A7).
-    destruct (IH s1 c1 clean1 (acc ++ [cell hdr rec k])) as (s2 & c2 & clean2 & E2 & S2 & RL2).
-    { rewrite A2. exact Hh. } { rewrite A3. exact Hm. } { exact RL1. } { apply Hnext. exact Hok. }
-    exists s2, c2, clean2. rewrite <- app_assoc in E2. split; [exact E2|].
-    split; [eapply s_same_trans; [|exact S2]; unfold s_same; repeat split; assumption | exact RL2].
-Qed.
-
-Lemma row_layout_initial sep qs rec a post : render_record sep qs rec = Some a ->
-  exists c0 tla, a = c0 ++ tla /\ row_layout sep qs rec (a ++ post) c0 tla post true.
-Proof.
-  intros H. destruct rec as [|f0 r']; [rewrite render_record_nil in H; discriminate|].
-  apply render_record_inv in H.
-  destruct H as (q & qs' & -> & Hq & [(-> & -> & ->)|(Hne & b & Hb & ->)]).
-  - exists (rfield q f0), []. rewrite app_nil_r. split; [reflexivity|].
-    constructor; [reflexivity | reflexivity | reflexivity | left; auto].
-  - exists (rfield q f0), (sep :: b). split; [reflexivity|].
-    constructor; [rewrite <- app_assoc; reflexivity | reflexivity | reflexivity | right; exists b; auto].
-Qed.
-
-Lemma row_layout_buf sep qs rec buf c0 tla post clean : row_layout sep qs rec buf c0 tla post clean ->
-  buf = c0 ++ tla ++ post.
-Proof. intros H. inversion H. assumption. Qed.
-
-Lemma row_layout_len sep qs rec buf c0 tla post clean a : row_layout sep qs rec buf c0 tla post clean ->
-  render_record sep qs rec = Some a -> length (c0 ++ tla) = length a.
-Proof.
-  intros H Ha. inversion H as [q0 f0 qs' r' buf0 c00 tla0 post0 clean0 Ebuf Elen Ec0 Etla]. subst.
-  apply render_record_inv in Ha.
-  destruct Ha as (q & qs'' & Eq & Hq & [(-> & -> & ->)|(Hne & b & Hb & ->)]); inversion Eq; subst.
-  - destruct Etla as [(_ & _ & ->)|(b & Hb & ->)]; [rewrite app_nil_r; exact Elen|].
-    rewrite render_record_nil in Hb. discriminate.
-  - destruct Etla as [(-> & _ & _)|(b' & Hb' & ->)]; [congruence|].
-    rewrite Hb in Hb'. inversion Hb'. subst. rewrite !app_length, Elen. reflexivity.
+  induction keys as [|k ks IH]; intros s acc txt Hl RC Hb.
+  - exists s, txt. cbn. rewrite app_nil_r. split; [reflexivity|]. split; [exact RC|]. split; [exact Hb | apply s_same_refl].
+  - cbn [s_read_keys read_spec].
+    destruct (s_read_key_gen sep qs rec post s txt k Hl RC Hb) as (s1 & txt1 & E1 & RC1 & B1 & S1 & V1).
+    rewrite E1. cbv beta iota.
+    destruct (select_column (s_headers s) (s_validx s) k) as [idx found] eqn:Es. cbn [fst snd] in *.
+    pose proof S1 as (_ & A2 & _).
+    destruct (IH s1 (acc ++ [if found then nth_error rec idx else None]) txt1) as (s2 & txt2 & E2 & RC2 & B2 & S2); try assumption.
+    { rewrite A2. exact Hl. }
+    exists s2, txt2. rewrite A2, V1, <- app_assoc in E2. split; [exact E2|]. split; [exact RC2|]. split; [exact B2|].
+    eapply s_same_trans; eassumption.
 Qed.
 
 (* ---------- the load loop ---------- *)
 
 Definition loop_inv (hdr : record) (s : sreader) : Prop :=
   esr_inv (s_esr s) /\ ((length (s_buf s) <= s_pos s)%nat -> esr_is_end (s_esr s) = true) /\ s_headers s = hdr.
-
-(* every data row can serve the requests (see keys_ok) *)
-Definition chs_ok (hdr : record) (keys : list field) (chs : list rchoice) : bool :=
-  forallb (fun ch => keys_ok hdr (ch_quotes ch) true keys) chs.
 
 Lemma skipn_nil_length {A} (l : list A) n : skipn n l = [] -> (length l <= n)%nat.
 Proof. intros H. pose proof (skipn_length n l) as L. rewrite H in L. cbn in L. lia. Qed.
@@ -576,16 +426,15 @@ Proof. rewrite skipn_app, skipn_all2 by lia. cbn. f_equal. lia. Qed.
 Lemma skipn_app_le {A} (X Y : list A) n : (n <= length X)%nat -> skipn n X ++ Y = skipn n (X ++ Y).
 Proof. intros H. rewrite skipn_app. replace (n - length X)%nat with 0%nat by lia. reflexivity. Qed.
 
-Lemma s_load_rows_spec K sep keys hdr : (0 < K)%nat -> sane_sep sep -> NoDup hdr ->
+Lemma s_load_rows_spec K sep keys hdr : (0 < K)%nat -> sane_sep sep ->
   forall t chs final body fuel fl s acc,
   ((t = [] /\ body = []) \/ render sep chs final t = Some body) ->
   remaining s = body -> loop_inv hdr s ->
   (length body < fuel)%nat -> (2 * length body + 1 < fl)%nat ->
-  chs_ok hdr keys chs = true ->
   s_load_rows fuel fl K sep keys s acc =
-    if widths_ok hdr t then Ok (acc ++ select hdr keys t) else Err ParsingError.
+    if widths_ok hdr t then Ok (acc ++ read_rows hdr keys t) else Err ParsingError.
 Proof.
-  intros HK S ND. induction t as [|rec t IH]; intros chs final body fuel fl s acc Hb Hrem (Inv & Hend & Hhdr) Hfuel Hfl Hok.
+  intros HK S. induction t as [|rec t IH]; intros chs final body fuel fl s acc Hb Hrem (Inv & Hend & Hhdr) Hfuel Hfl.
   - destruct Hb as [[_ ->]|Hb]; [|rewrite render_nil in Hb; discriminate].
     destruct fuel as [|fuel]; [lia|]. cbn [s_load_rows].
     unfold remaining in Hrem. apply app_eq_nil in Hrem. destruct Hrem as [R1 R2].
@@ -594,7 +443,6 @@ Proof.
   - destruct Hb as [[Hb _]|Hb]; [discriminate|].
     pose proof (render_nonempty _ _ _ _ _ Hb) as Hbne.
     destruct (render_shape _ _ _ _ _ _ Hb) as (ch & chs' & a & rest & n & tail & -> & Ha & -> & LR & Hprog & Erest & Hn & Htail).
-    cbn [chs_ok forallb] in Hok. apply andb_true_iff in Hok. destruct Hok as [Hok1 Hok2].
     destruct fuel as [|fuel]; [lia|]. cbn [s_load_rows].
     rewrite (s_not_end s Inv) by (rewrite Hrem; exact Hbne).
     unfold s_parse_next_row.
@@ -608,26 +456,26 @@ Proof.
     rewrite (Nat.eqb_sym (@length (list N) rec) (@length (list N) hdr)).
     destruct (Nat.eqb (@length (list N) hdr) (@length (list N) rec)) eqn:Ew; cbn [negb andb]; [|reflexivity].
     apply Nat.eqb_eq in Ew.
-    destruct (row_layout_initial sep (ch_quotes ch) rec a post1 Ha) as (c0 & tla & Ea & RL0).
     match goal with |- context [s_read_keys ?ss keys []] => set (s1 := ss) end.
-    destruct (s_read_keys_row sep hdr (ch_quotes ch) rec tla post1 ND (eq_sym Ew) keys s1 c0 true [])
-      as (s2 & c2 & clean2 & E2 & (A1&A2&A3&A4&A5&A6&A7) & RL2); try reflexivity; try assumption.
-    rewrite E2. cbv beta iota. subst s1. cbn [s_esr s_headers s_metas s_pos s_line s_rowidx s_prev app] in *.
-    pose proof (row_layout_buf _ _ _ _ _ _ _ _ RL2) as Eb2.
-    pose proof (row_layout_len _ _ _ _ _ _ _ _ a RL2 Ha) as El2.
+    destruct (s_read_keys_gen sep (ch_quotes ch) rec post1 keys s1 [] a)
+      as (s2 & txt2 & E2 & RC2 & B2 & (A1&A2&A3&A4&A5&A6)).
+    { subst s1. cbn [s_headers]. symmetry. exact Ew. }
+    { subst s1. cbn [s_metas]. apply row_cells_initial. exact Ha. }
+    { subst s1. reflexivity. }
+    rewrite E2. cbv beta iota. subst s1. cbn [s_esr s_headers s_metas s_pos s_line s_rowidx s_prev s_validx app] in *.
+    destruct (row_cells_length sep _ _ _ _ _ RC2 a Ha) as [El2 _].
     etransitivity.
-    { apply (IH chs' final tail fuel fl s2 (acc ++ [map (cell hdr rec) keys])).
+    { apply (IH chs' final tail fuel fl s2 (acc ++ [read_spec hdr rec keys 0])).
       + exact Htail.
-      + unfold remaining. rewrite A1, A4, Eb2, app_assoc, <- El2, skipn_past.
+      + unfold remaining. rewrite A1, A3, B2, <- El2, skipn_past.
         rewrite skipn_app_le by exact Hnle. rewrite Hpost. rewrite Erest at 1.
         rewrite <- Hn at 1. apply skipn_app_exact.
       + split; [rewrite A1; exact Inv2|]. split; [|rewrite A2; reflexivity].
-        rewrite A1, A4, Eb2, app_assoc, app_length, El2. intros H. apply Hend2. lia.
+        rewrite A1, A3, B2, app_length, El2. intros H. apply Hend2. lia.
       + rewrite app_length in Hfuel. rewrite Erest, app_length, Hn in Hfuel. lia.
-      + rewrite app_length in Hfl. rewrite Erest, app_length, Hn in Hfl. lia.
-      + exact Hok2. }
+      + rewrite app_length in Hfl. rewrite Erest, app_length, Hn in Hfl. lia. }
     destruct (widths_ok hdr t); [|reflexivity].
-    unfold select. cbn [map]. rewrite <- app_assoc. reflexivity.
+    unfold read_rows. cbn [map]. rewrite <- app_assoc. reflexivity.
 Qed.
 
 (* ---------- constructor and LoadObject from a stream ---------- *)
@@ -655,17 +503,15 @@ Proof.
     rewrite andb_true_r in Eb. apply negb_false_iff in Eb. apply is_nil_true in Eb. rewrite Eb in Es. discriminate.
 Qed.
 
-Theorem csv_load_stream_render K sep chs final hdr rows text keys : (0 < K)%nat -> allowed sep -> NoDup hdr ->
+(* for every chunk size: whatever rendering the stream carries, the stream reader answers exactly as specified *)
+Theorem csv_load_stream_render K sep chs final hdr rows text keys : (0 < K)%nat -> allowed sep ->
   render sep chs final (hdr :: rows) = Some (stream_payload K text) ->
-  chs_ok hdr keys (tl chs) = true ->
-  csv_load_stream K sep keys text =
-    if widths_ok hdr rows then Ok (select hdr keys rows) else Err ParsingError.
+  csv_load_stream K sep keys text = load_expect hdr keys rows.
 Proof.
-  intros HK A ND R Hok. pose proof (allowed_sane sep A) as S.
+  intros HK A R. pose proof (allowed_sane sep A) as S.
   unfold csv_load_stream. rewrite (allowed_validate sep A). cbn [negb].
   pose proof (render_nonempty _ _ _ _ _ R) as Hne.
   destruct (render_shape _ _ _ _ _ _ R) as (ch & chs' & a & rest & n & tail & -> & Ha & Epay & LR & Hprog & Erest & Hn & Htail).
-  cbn [tl] in Hok.
   destruct (esr_new_spec K text HK) as [Hsr Inv0].
   assert (Hpl : (length (stream_payload K text) <= length text)%nat).
   { unfold stream_payload. destruct (starts_with_bom (firstn K text)); [rewrite skipn_length; lia | lia]. }
@@ -679,90 +525,54 @@ Proof.
   { rewrite Hrem0, <- Epay. unfold stream_fuel. lia. }
   rewrite E. unfold s_line_result, s0. cbn [s_headers s_metas s_line s_rowidx s_validx length].
   match goal with |- context [s_read_headers _ ?ss []] => set (s1 := ss) end.
-  destruct (s_read_headers_spec sep hdr (ch_quotes ch) a [] post1 s1 [] [] Ha) as (a' & s2 & E2 & B2 & L2 & (A1&A2&A3&A4&A5&A6&A7));
-    try reflexivity.
-  rewrite (rec_metas_length sep hdr _ a 0 Ha). rewrite E2. cbv beta iota. cbn [app] in *.
-  subst s1. cbn [s_esr s_headers s_metas s_pos s_line s_rowidx s_prev] in *.
-  apply (s_load_rows_spec K sep keys hdr HK S ND rows chs' final tail).
+  destruct (s_read_headers_spec sep (ch_quotes ch) hdr post1 (length (rec_metas 0 (ch_quotes ch) hdr)) s1 [] a)
+    as (s2 & txt2 & E2 & RC2 & B2 & (A1&A2&A3&A4&A5&A6)).
+  { subst s1. cbn [s_metas]. apply row_cells_initial. exact Ha. }
+  { subst s1. reflexivity. }
+  { subst s1. cbn [s_metas s_validx]. rewrite (rec_metas_length sep hdr _ a 0 Ha). lia. }
+  rewrite E2. cbv beta iota. subst s1. cbn [s_esr s_headers s_metas s_pos s_line s_rowidx s_prev s_validx skipn app] in *.
+  destruct (row_cells_length sep _ _ _ _ _ RC2 a Ha) as [El2 _].
+  unfold load_expect.
+  apply (s_load_rows_spec K sep keys hdr HK S rows chs' final tail).
   - exact Htail.
-  - unfold remaining. cbn [s_pos s_buf s_esr]. rewrite A1, A4, B2, <- L2, skipn_past.
+  - unfold remaining. cbn [s_pos s_buf s_esr]. rewrite A1, A3, B2, <- El2, skipn_past.
     rewrite skipn_app_le by exact Hnle. rewrite Hpost. rewrite Erest at 1. rewrite <- Hn at 1. apply skipn_app_exact.
   - unfold loop_inv. cbn [s_pos s_buf s_esr s_headers]. split; [rewrite A1; exact Inv2|]. split; [|reflexivity].
-    rewrite A1, A4, B2, app_length, L2. intros H. apply Hend2. lia.
+    rewrite A1, A3, B2, app_length, El2. intros H. apply Hend2. lia.
   - assert (length (a ++ rest) <= length text)%nat by (rewrite <- Epay; exact Hpl).
     rewrite app_length in H. rewrite Erest, app_length, Hn in H. lia.
   - assert (length (a ++ rest) <= length text)%nat by (rewrite <- Epay; exact Hpl).
     rewrite app_length in H. rewrite Erest, app_length, Hn in H. unfold stream_fuel. lia.
-  - exact Hok.
 Qed.
 
-(* ---------- the defect class in declarative form ---------- *)
-
-Definition field_eq_dec : forall a b : field, {a = b} + {a <> b} := list_eq_dec N.eq_dec.
-
-(* sufficient for keys_ok: no requested column other than the first is escaped in this row, and an escaped first
-   column is requested at most once *)
-Lemma keys_ok_sufficient hdr qs : forall (keys : list field) (clean : bool),
-  (forall (j : nat) (k : field), In k keys -> nth_error hdr (Datatypes.S j) = Some k -> nth (Datatypes.S j) qs false = false) ->
-  (hd false qs = true -> forall k0 : field, nth_error hdr 0%nat = Some k0 ->
-     if clean then (count_occ field_eq_dec keys k0 <= 1)%nat else ~ In k0 keys) ->
-  keys_ok hdr qs clean keys = true.
+Theorem csv_load_stream_rfc K sep chs final hdr rows text keys : (0 < K)%nat -> allowed sep -> NoDup hdr -> uniform hdr rows ->
+  render sep chs final (hdr :: rows) = Some (stream_payload K text) ->
+  csv_load_stream K sep keys text = Ok (select hdr keys rows).
 Proof.
-  induction keys as [|k ks IH]; intros clean C1 C0; [reflexivity|].
-  change field with (list N) in *.
-  cbn [keys_ok]. destruct (find_header hdr k 0) as [[|j]|] eqn:Ef.
-  - apply find_header_nth in Ef. destruct (hd false qs) eqn:Eh.
-    + specialize (C0 eq_refl k Ef). destruct clean.
-      * cbn [andb]. apply IH.
-        -- intros j k' Hin. apply C1. right. exact Hin.
-        -- intros _ k0 Hk0. assert (k0 = k) by congruence. subst k0.
-           cbn [count_occ] in C0. destruct (field_eq_dec k k); [|congruence].
-           intros Hin. apply (count_occ_In field_eq_dec) in Hin. change field with (list N) in *. lia.
-      * exfalso. apply C0. left. reflexivity.
-    + apply IH; [intros j k' Hin; apply C1; right; exact Hin | intros H; discriminate].
-  - apply find_header_nth in Ef. rewrite (C1 j k (or_introl eq_refl) Ef). cbn [negb andb].
-    apply IH.
-    + intros j' k' Hin. apply C1. right. exact Hin.
-    + intros Hh k0 Hk0. specialize (C0 Hh k0 Hk0). destruct clean.
-      * cbn [count_occ] in C0. destruct (field_eq_dec k k0); lia.
-      * intros Hin. apply C0. right. exact Hin.
-  - apply IH.
-    + intros j' k' Hin. apply C1. right. exact Hin.
-    + intros Hh k0 Hk0. specialize (C0 Hh k0 Hk0). destruct clean.
-      * cbn [count_occ] in C0. destruct (field_eq_dec k k0); lia.
-      * intros Hin. apply C0. right. exact Hin.
+  intros HK A ND U R. rewrite (csv_load_stream_render K sep chs final hdr rows text keys HK A R).
+  unfold load_expect. rewrite (widths_ok_uniform _ _ U), (read_rows_select _ _ _ ND U). reflexivity.
 Qed.
 
-(* in particular: nothing escaped in the data rows *)
-Lemma keys_ok_bare hdr qs keys : forallb negb qs = true -> keys_ok hdr qs true keys = true.
+Theorem csv_load_stream_width K sep chs final hdr recs text keys : (0 < K)%nat -> allowed sep ->
+  render sep chs final (hdr :: recs) = Some (stream_payload K text) -> Exists (fun r => length r <> length hdr) recs ->
+  csv_load_stream K sep keys text = Err ParsingError.
 Proof.
-  intros H. assert (Hn : forall j, nth j qs false = false).
-  { intros j. destruct (nth_in_or_default j qs false) as [Hin|E]; [|exact E].
-    rewrite forallb_forall in H. specialize (H _ Hin). apply negb_true_iff in H. exact H. }
-  apply keys_ok_sufficient.
-  - intros j k _ _. apply Hn.
-  - intros Hh. destruct qs as [|q qs']; [discriminate|]. cbn in Hh. specialize (Hn 0%nat). cbn in Hn. congruence.
+  intros HK A R E. rewrite (csv_load_stream_render K sep chs final hdr recs text keys HK A R).
+  unfold load_expect. rewrite (widths_ok_ragged _ _ E). reflexivity.
 Qed.
 
-(* ---------- refutations (chunk size of the library) ---------- *)
-
-(* F23: header a,b and the record 1 , DQUOTE 2 DQUOTE, read as columns a, b *)
-Lemma stream_f23_witness :
-  csv_load_stream chunk_size 44 [[97]; [98]] [97; 44; 98; 13; 10; 49; 44; 34; 50; 34; 13; 10] = Err ParsingError.
-Proof. vm_compute. reflexivity. Qed.
-
-(* F23, silently wrong: header a,b and the record x , DQUOTE a DQUOTE DQUOTE b DQUOTE read as column b gives a DQUOTE *)
-Lemma stream_f23_silent_witness :
-  csv_load_stream chunk_size 44 [[98]] [97; 44; 98; 13; 10; 120; 44; 34; 97; 34; 34; 98; 34] = Ok [[Some [97; 34]]].
-Proof. vm_compute. reflexivity. Qed.
-
-(* F25: header a,b and the record DQUOTE foo DQUOTE , x read as columns a, a *)
-Lemma stream_f25_witness :
-  csv_load_stream chunk_size 44 [[97]; [97]] [97; 44; 98; 13; 10; 34; 102; 111; 111; 34; 44; 120] = Err ParsingError.
-Proof. vm_compute. reflexivity. Qed.
+(* memory and stream loading agree on every RFC 4180 text, wherever the chunk boundaries fall *)
+Theorem csv_load_stream_eq_mem K sep chs final t text keys : (0 < K)%nat -> allowed sep ->
+  render sep chs final t = Some (stream_payload K text) ->
+  csv_load_stream K sep keys text = csv_load sep keys (stream_payload K text).
+Proof.
+  intros HK A R. destruct t as [|hdr rows]; [rewrite render_nil in R; discriminate|].
+  rewrite (csv_load_stream_render K sep chs final hdr rows text keys HK A R).
+  rewrite (csv_load_render sep chs final hdr rows _ keys A R). reflexivity.
+Qed.
 
 Lemma stream_example :
-  csv_load_stream chunk_size 59 [[98]; [97]; [122]]
-    [0xEF; 0xBB; 0xBF; 97; 59; 98; 10; 34; 120; 34; 34; 59; 34; 59; 49; 13; 10; 59; 10] =
-  Ok [[Some [49]; Some [120; 34; 59]; None]; [Some []; Some []; None]].
+  csv_load_stream chunk_size 59 [[98]; [97]; [122]; [98]]
+    [0xEF; 0xBB; 0xBF; 97; 59; 98; 10; 34; 120; 34; 34; 59; 34; 59; 34; 49; 34; 13; 10; 59; 10] =
+  Ok [[Some [49]; Some [120; 34; 59]; None; Some [49]]; [Some []; Some []; None; Some []]].
 Proof. vm_compute. reflexivity. Qed.
